@@ -1,5 +1,6 @@
 '''C12 Sorting permutes whole rows, orders the keys, and is stable.'''
 from sfa.report import Ctx
+from sfa.rules import own
 from sfa.rules import forwardrules
 from sfa.rules import sortrules
 from sfa.rules import table
@@ -11,7 +12,7 @@ LEVEL_TEXT = (
     'unmodified; (c) at each of the 5 np.lexsort sites the key list iterates from the last depth/column down to 0, so depth 0 is the '
     'primary key; (d) each sort result selects labels and values with the same permutation variable and passes the other axis and '
     'the name through; (f) every definition of the permutation is a sort primitive over values data-dependent on the key container, or its own reversal; (e) `ascending` is consumed only by reversing the permutation after the stable ascending sort. '
-    'Option forwarding: in every sort interface each call to a resolved callee that accepts a parameter named like one of the function\'s own parameters passes it on (confirmed exceptions listed in sfa/rules/forwardrules.py). Key dtypes: per path of Frame.sort_values, several key columns are handed to np.lexsort column by column in their own dtype, never consolidated into one array first. Sibling defaults: a parameter taken by the same-named method of several container classes has the same default in each (confirmed exceptions listed in sfa/rules/forwardrules.py). Not decided: NumPy\'s sort itself, key-function results, NaN ordering.')
+    'Option forwarding: in every sort interface each call to a resolved callee that accepts a parameter named like one of the function\'s own parameters passes it on (confirmed exceptions listed in sfa/rules/forwardrules.py). Key dtypes: per path of Frame.sort_values, several key columns are handed to np.lexsort column by column in their own dtype, never consolidated into one array first. Sibling defaults: a parameter taken by the same-named method of several container classes has the same default in each (confirmed exceptions listed in sfa/rules/forwardrules.py). Sorted results own their labels: no sort route hands a grow-only member of its source to the result with own_* possibly True (the axis that is not sorted is carried over by copy for grow-only frames) (C.own-handoff). Not decided: NumPy\'s sort itself, key-function results, NaN ordering.')
 
 CLAIM = dict(
     text=LEVEL_TEXT,
@@ -30,3 +31,4 @@ def run(ctx: Ctx) -> None:
     forwardrules.forwarding(ctx, modules=None, prefixes=('sort', '_sort'), suffix='sort', floor=16, what='sort interface')
     sortrules.keys_own_dtype(ctx)
     forwardrules.sibling_defaults(ctx, prefixes=('sort', '_sort'), suffix='sort', floor=9)
+    own.c_handoffs(ctx)
